@@ -257,7 +257,9 @@ def cert_blob(spec, tag=b''):
     if spec['type'] == 'rsa-cert':
         out = string(b'ssh-rsa-cert-v01@openssh.com') + string(nonce) + mpint(65537) + mpint(det_int(spec['bits'], tag))
     else:
-        out = string(b'ssh-ed25519-cert-v01@openssh.com') + string(nonce) + string(hashlib.sha256(b'ed25519' + tag).digest())
+        pk = hashlib.sha256(b'ed25519' + tag).digest()
+        z = spec.get('pubkey_zero', 0)   # a public key whose encoding starts with zero bytes (about one real key in 256 starts with one)
+        out = string(b'ssh-ed25519-cert-v01@openssh.com') + string(nonce) + string(b'\x00' * z + pk[z:])
     out += u64(spec.get('serial', 1)) + u32(spec.get('cert_type', 2)) + string(spec.get('key_id', 'host-key-id'))
     principals = spec['principals'] if 'principals' in spec else [spec.get('principal', 'host.example')]
     out += string(b''.join(string(x) for x in principals))
